@@ -155,3 +155,5 @@ func (s *engineSuite) do(t []string) string {
 	}
 	return t[0] + " bad-op"
 }
+
+func init() { register("engine", func(o map[string]string) suite { return newEngineSuite(o) }) }
